@@ -251,9 +251,12 @@ pub fn c02_iterators_finite<P: Payload>(arena: &Arena<P>, starts: &[NodeId]) -> 
             drain_ids("children", id, id.children(arena), bound)?;
             drain_ids("children.rev", id, id.children(arena).rev(), bound)?;
             drain_ids("reverse_children", id, id.reverse_children(arena), bound)?;
-            drain_ids("descendants", id, id.descendants(arena), bound)?;
+            // the edge traversals first: every next() of theirs is one link step, so take(bound) really
+            // bounds them; descendants() filters a traversal internally and a single next() of it could
+            // spin on a cyclic structure - it is only consumed once the traversal proved finite
             drain_edges("traverse", id, id.traverse(arena), bound)?;
             drain_edges("reverse_traverse", id, id.reverse_traverse(arena), bound)?;
+            drain_ids("descendants", id, id.descendants(arena), bound)?;
             // stepping
             let mut e = Some(NodeEdge::Start(id));
             let mut k = 0;
@@ -268,6 +271,77 @@ pub fn c02_iterators_finite<P: Payload>(arena: &Arena<P>, starts: &[NodeId]) -> 
                 e = x.next_traverse(arena);
             }
             obs += 11;
+        }
+        // the same through internal iteration (fold-based consumers cannot be bounded from outside:
+        // only on a structure whose raw links are acyclic)
+        if c02_acyclic(arena).is_ok() && c01_wellformed(arena).is_ok() {
+            let stride = (starts.len() / 6).max(1);
+            for &id in starts.iter().step_by(stride) {
+                macro_rules! once {
+                    ($name:expr, $it:expr) => {{
+                        let mut seen = HashSet::new();
+                        let mut dup = None;
+                        let mut n = 0usize;
+                        $it.for_each(|x| {
+                            n += 1;
+                            if n > bound {
+                                panic!("for_each() does not end");
+                            }
+                            if !seen.insert(x) && dup.is_none() {
+                                dup = Some(format!("{:?}", x));
+                            }
+                        });
+                        if let Some(d) = dup {
+                            bail!(format!("{}-for_each-yields-twice", $name), "{} from {}: for_each visited {} twice", $name, usize::from(id), d);
+                        }
+                    }};
+                }
+                once!("ancestors", id.ancestors(arena));
+                once!("predecessors", id.predecessors(arena));
+                once!("preceding_siblings", id.preceding_siblings(arena));
+                once!("following_siblings", id.following_siblings(arena));
+                once!("children", id.children(arena));
+                once!("children.rev", id.children(arena).rev());
+                once!("descendants", id.descendants(arena));
+                once!("traverse", id.traverse(arena));
+                once!("reverse_traverse", id.reverse_traverse(arena));
+                // partly consumed from the back, then for_each from the front (and the reverse)
+                let mut it = id.children(arena);
+                let b = it.next_back();
+                let mut seen: HashSet<NodeId> = b.into_iter().collect();
+                let mut n = 0usize;
+                let mut dup = None;
+                it.for_each(|x| {
+                    n += 1;
+                    if n > bound {
+                        panic!("for_each() does not end");
+                    }
+                    if !seen.insert(x) && dup.is_none() {
+                        dup = Some(x);
+                    }
+                });
+                if let Some(d) = dup {
+                    bail!("children-for_each-after-next_back-yields-twice", "children of {}: next_back() then for_each visited node {} twice", usize::from(id), usize::from(d));
+                }
+                let mut it = id.following_siblings(arena);
+                let f = it.next();
+                let mut seen: HashSet<NodeId> = f.into_iter().collect();
+                let mut dup = None;
+                let mut n = 0usize;
+                it.rev().for_each(|x| {
+                    n += 1;
+                    if n > bound {
+                        panic!("for_each() does not end");
+                    }
+                    if !seen.insert(x) && dup.is_none() {
+                        dup = Some(x);
+                    }
+                });
+                if let Some(d) = dup {
+                    bail!("following_siblings-rev-for_each-after-next-yields-twice", "following_siblings of {}: next() then rev().for_each visited node {} twice", usize::from(id), usize::from(d));
+                }
+                obs += 11;
+            }
         }
         Ok(obs)
     }))
@@ -302,6 +376,48 @@ fn cmp_clone<X: PartialEq + std::fmt::Debug + Clone>(what: &str, start: NodeId, 
     let rest: Vec<X> = exp.iter().skip(j).cloned().collect();
     if got.0 != rest || got.1 != rest {
         bail!(format!("{}-clone-mid-iteration", what), "{} from node {}: after {} items a clone yields {:?} and the original {:?}; the rest of the sequence is {:?}", what, usize::from(start), j, got.0, got.1, rest);
+    }
+    Ok(())
+}
+
+/// Internal iteration (fold / count / last - the consumers behind for_each, sum, collect into sets ...)
+/// must agree with external iteration, also on a partly consumed iterator.
+fn internal_iter<X: PartialEq + std::fmt::Debug + Clone, I: Iterator<Item = X> + Clone>(what: &str, start: NodeId, fresh: &dyn Fn() -> I, exp: &[X], bound: usize) -> Result<(), (String, String)> {
+    let n = exp.len();
+    let mut js = vec![0usize, n];
+    if n > 1 {
+        js.push(1 + (usize::from(start) * 3) % (n - 1));
+    }
+    for j in js {
+        let mut it = fresh();
+        for _ in 0..j {
+            it.next();
+        }
+        let rest: Vec<X> = exp[j.min(n)..].to_vec();
+        let folded = it.clone().fold(Vec::new(), |mut v, x| {
+            if v.len() > bound {
+                panic!("fold() does not end");
+            }
+            v.push(x);
+            v
+        });
+        if folded != rest {
+            bail!(format!("{}-fold", what), "{} from node {}: after {} next() calls fold()/for_each visits {:?}, the rest of the sequence is {:?}", what, usize::from(start), j, folded, rest);
+        }
+        let c = it.clone().count();
+        if c != rest.len() {
+            bail!(format!("{}-count", what), "{} from node {}: after {} next() calls count() = {}, {} items remain", what, usize::from(start), j, c, rest.len());
+        }
+        let l = it.clone().last();
+        if l.as_ref() != rest.last() {
+            bail!(format!("{}-last", what), "{} from node {}: after {} next() calls last() = {:?}, expected {:?}", what, usize::from(start), j, l, rest.last());
+        }
+        if let Some(k) = rest.len().checked_sub(1) {
+            let nth = it.clone().nth(k);
+            if nth.as_ref() != rest.last() {
+                bail!(format!("{}-nth", what), "{} from node {}: after {} next() calls nth({}) = {:?}, expected {:?}", what, usize::from(start), j, k, nth, rest.last());
+            }
+        }
     }
     Ok(())
 }
@@ -381,6 +497,33 @@ pub fn c09_traversals<P: Payload>(st: &State<P>) -> R {
             rexp.reverse();
             let got = drain_edges("reverse_traverse", id, id.reverse_traverse(a), bound)?;
             cmp_seq("reverse_traverse", id, &got, &rexp)?;
+            // internal iteration agrees with external iteration
+            {
+                let d: Vec<NodeId> = ids(m, &m.subtree(h));
+                internal_iter("descendants", id, &|| id.descendants(a), &d, bound)?;
+                internal_iter("traverse", id, &|| id.traverse(a), &exp, bound)?;
+                internal_iter("reverse_traverse", id, &|| id.reverse_traverse(a), &rexp, bound)?;
+                let sib = m.siblings(h);
+                let (_, i) = m.pos(h);
+                let f: Vec<NodeId> = sib[i..].iter().map(|x| m.nodes[*x].id).collect();
+                internal_iter("following_siblings", id, &|| id.following_siblings(a), &f, bound)?;
+                let pr: Vec<NodeId> = sib[..=i].iter().rev().map(|x| m.nodes[*x].id).collect();
+                internal_iter("preceding_siblings", id, &|| id.preceding_siblings(a), &pr, bound)?;
+                let k: Vec<NodeId> = ids(m, m.children(h));
+                internal_iter("children", id, &|| id.children(a), &k, bound)?;
+                let mut rk = k.clone();
+                rk.reverse();
+                internal_iter("children.rev", id, &|| id.children(a).rev(), &rk, bound)?;
+                internal_iter("reverse_children", id, &|| id.reverse_children(a), &rk, bound)?;
+                let mut anc = vec![id];
+                let mut cur = h;
+                while let Some(p) = m.parent(cur) {
+                    anc.push(m.nodes[p].id);
+                    cur = p;
+                }
+                internal_iter("ancestors", id, &|| id.ancestors(a), &anc, bound)?;
+                obs += 9;
+            }
             // a clone taken in the middle of an iteration continues where the original is
             {
                 let j = (h * 7 + exp.len()) % (exp.len() + 1);
@@ -612,6 +755,51 @@ pub fn c10_double_ended<P: Payload>(st: &State<P>, rng: &mut Rng, stats: &mut C1
                         pulls += 1;
                     }
                     patterns += 1;
+                }
+                // after a few pulls from both ends, internal iteration (fold / rfold) visits exactly the middle
+                for (nf, nb) in [(0usize, 0usize), (1, 0), (0, 1), (1, 1), (2, 1)] {
+                    if nf + nb > f.len() {
+                        continue;
+                    }
+                    let mid: Vec<NodeId> = f[nf..f.len() - nb].to_vec();
+                    let mut rmid = mid.clone();
+                    rmid.reverse();
+                    macro_rules! check {
+                        ($it:expr) => {{
+                            let mut it = $it;
+                            for _ in 0..nf {
+                                it.next();
+                            }
+                            for _ in 0..nb {
+                                it.next_back();
+                            }
+                            let fw = it.clone().fold(Vec::new(), |mut v, x| {
+                                if v.len() > 4 * a.count() + 8 {
+                                    panic!("fold() does not end");
+                                }
+                                v.push(x);
+                                v
+                            });
+                            let bw = it.clone().rfold(Vec::new(), |mut v, x| {
+                                if v.len() > 4 * a.count() + 8 {
+                                    panic!("rfold() does not end");
+                                }
+                                v.push(x);
+                                v
+                            });
+                            let cnt = it.count();
+                            (fw, bw, cnt)
+                        }};
+                    }
+                    let (fw, bw, cnt) = match kind {
+                        DeKind::Children => check!(id.children(a)),
+                        DeKind::Preceding => check!(id.preceding_siblings(a)),
+                        DeKind::Following => check!(id.following_siblings(a)),
+                    };
+                    if fw != mid || bw != rmid || cnt != mid.len() {
+                        bail!(format!("{:?}-internal-iteration", kind), "{:?} of node {} after {} front and {} back pulls: fold visits {:?}, rfold visits {:?}, count() = {}; the remaining elements are {:?}", kind, usize::from(id), nf, nb, us(&fw), us(&bw), cnt, us(&mid));
+                    }
+                    obs += 1;
                 }
                 // rev() is the forward sequence reversed
                 let bound = 2 * a.count() + 3;
